@@ -7,6 +7,11 @@ from . import interp
 from . import expr as X
 
 
+def _opaque(P, f, known):
+    """Runtime functions f calls that the index-only evaluation does not enter (other than the known ones)."""
+    return sorted({c.callee for c in f.calls() if c.callee and c.callee not in known and P.fn_opt(c.callee) is not None})
+
+
 def check_broadcast(ck, P, rid):
     cfg = P.config
     f = P.fn_opt("mpi_control_msg_broadcast")
@@ -33,7 +38,9 @@ def check_broadcast(ck, P, rid):
         extra = [d for d in dests if not (0 <= d < n)]
         if (missing or extra) and bad is None:
             bad = (n, missing, extra, dests)
-    if bad:
+    if bad and _opaque(P, f, {"mpi_control_msg_send_to"}):
+        ck.inconclusive(rid, inst, f.where, "the broadcast works through %s, which this evaluation does not enter" % _opaque(P, f, {"mpi_control_msg_send_to"}), cfg)
+    elif bad:
         n, missing, extra, dests = bad
         ck.violated(rid, inst, f.where, "with %d rank(s) the broadcast sends to %s: %s — a GVT start or termination notice that a rank never gets leaves the others waiting for it forever"
                     % (n, dests, ("rank(s) %s get nothing" % missing) if missing else ("destination(s) %s do not exist" % extra)), cfg)
@@ -182,7 +189,10 @@ def check_spawn_join(ck, P, rid):
             bad = (n, "workers are started with ids %s: %s" % (started, "an id that is missing has no thread to run its LPs and every barrier waits for it" if len(set(started)) < n else "ids outside 0..n-1"))
         if joined != list(range(n)) and bad is None:
             bad = (n, "thread handles %s are joined: the statistics and the LPs are finalised while thread(s) %s may still be running" % (joined, sorted(set(range(n)) - set(joined))))
-    if bad:
+    known = {"thread_start", "thread_affinity_set", "thread_wait", "parallel_global_init", "parallel_global_fini", "stats_global_time_take", "logger", "vlogger", "abort"}
+    if bad and _opaque(P, f, known):
+        ck.inconclusive(rid, inst, f.where, "threads are started / joined through %s, which this evaluation does not enter" % _opaque(P, f, known), cfg)
+    elif bad:
         ck.violated(rid, inst, f.where, "with %d thread(s) %s" % bad, cfg)
     else:
         ck.holds(rid, inst, f.where, "for 1..8 threads one worker is started per id 0..n-1 and every handle is joined before the global finalisation", cfg)
